@@ -39,7 +39,8 @@ Inductive stmt :=
 | SDeferClo (body : list stmt)   (* defer func() { body }() *)
 | SPanic (v : pval)              (* panic(v) / a failing operation *)
 | SReturn                        (* return *)
-| SGoexit.                       (* runtime.Goexit() *)
+| SGoexit                        (* runtime.Goexit() *)
+| SBlock.                        (* req <- true; <-ack : the goroutine really blocks and is resumed; no effect *)
 
 Definition program := list (list stmt).
 
@@ -151,6 +152,7 @@ Fixpoint spec_exec (fuel : nat) (p : program) (cell : nat) (ss : list stmt) (l :
     | SPanic v => Some (OPanic v, l, g)
     | SReturn => Some (OReturn, l, g)
     | SGoexit => Some (OGoexit, l, g)
+    | SBlock => continue l g
     end
   end end
 
@@ -306,20 +308,28 @@ Definition jex_of (e : option pval) : jex := match e with None => XNull | Some v
    variable `deferred` had the value cur *)
 Inductive lres := LRet | LThrow (e : jex) (cur : option nat) | LThrowTop (e : jex).   (* LThrowTop: `deferred` is undefined *)
 
-(* variant: the repair of goexit-swallowed-by-deferring-frame.  true: runtime.Goexit records
-   exitFrames = deferStack.length, and $callDeferred, when a $deferred list is exhausted, does
-     if ($curGoroutine.exit && deferStack.length < exitFrames) { exitFrames = deferStack.length; throw null; }
-   false = the tree without the repair (exit flag only).  The check probes
-   compiler/prelude/goroutines.js for `exitFrames` and selects the variant
-   (Gen/C08_Consts.gen_goexit_rethrow). *)
+(* variants of the implementation (the check probes the source and selects one; Gen/C08_Consts):
+   v_goexit_rethrow — repair of goexit-swallowed-by-deferring-frame: runtime.Goexit records
+     exitFrames = deferStack.length, and $callDeferred, when a $deferred list is exhausted, does
+       if ($curGoroutine.exit && deferStack.length < exitFrames) { exitFrames = deferStack.length; throw null; }
+     false = exit flag only.
+   v_pushback_asleep_only — repair of replaced-panic-resurrected-after-recover: the finally block of
+     $callDeferred re-queues an unrecovered panic only when the goroutine is going to sleep
+       if ($panicStackDepth !== null && $curGoroutine.asleep) { panicStack.push(localPanicValue); }
+     (asleep is false on every path of this model, so the repaired variant never re-queues);
+     false = re-queue whenever $panicStackDepth !== null.
+   v_exit_swallows_null_only — repair of panic-during-goexit-swallowed: the catch clause of $goroutine
+     re-throws everything but the null of Goexit:  if (!$goroutine.exit || err !== null) throw err;
+     false = every exception is swallowed once the exit flag is set. *)
+Record variant := { v_goexit_rethrow : bool; v_pushback_asleep_only : bool; v_exit_swallows_null_only : bool }.
 
-Fixpoint impl_exec (goexit_rethrow : bool) (fuel : nat) (p : program) (d : Z) (cell : nat) (dl : option nat) (ss : list stmt) (s : jstate)
+Fixpoint impl_exec (vr : variant) (fuel : nat) (p : program) (d : Z) (cell : nat) (dl : option nat) (ss : list stmt) (s : jstate)
   {struct fuel} : option (jout * jstate) :=
   match fuel with O => None | S fuel' =>
   match ss with
   | [] => Some (JNext, s)
   | st :: rest =>
-    let continue s := impl_exec goexit_rethrow fuel' p d cell dl rest s in
+    let continue s := impl_exec vr fuel' p d cell dl rest s in
     match st with
     | STrace t => continue (j_emit (ETrace t) s)
     | STraceX => let '(x, r) := cell_get (j_cells s) cell in continue (j_emit (ETraceX x r) s)
@@ -329,7 +339,7 @@ Fixpoint impl_exec (goexit_rethrow : bool) (fuel : nat) (p : program) (d : Z) (c
     | SCall f =>
         let '(x, r) := cell_get (j_cells s) cell in
         let '(c, s1) := j_fresh s in
-        match impl_fun goexit_rethrow fuel' p (d + 1) c (body_of p f) (j_setcell c (x, 0) s1) with
+        match impl_fun vr fuel' p (d + 1) c (body_of p f) (j_setcell c (x, 0) s1) with
         | None => None
         | Some (JThrow e, s2) => Some (JThrow e, s2)
         | Some (_, s2) =>
@@ -337,7 +347,7 @@ Fixpoint impl_exec (goexit_rethrow : bool) (fuel : nat) (p : program) (d : Z) (c
             continue (j_setcell cell (snd (cell_get (j_cells s2) c), r') s2)
         end
     | SCallClo b =>
-        match impl_fun goexit_rethrow fuel' p (d + 1) cell b s with
+        match impl_fun vr fuel' p (d + 1) cell b s with
         | None => None
         | Some (JThrow e, s2) => Some (JThrow e, s2)
         | Some (_, s2) => continue s2
@@ -355,23 +365,24 @@ Fixpoint impl_exec (goexit_rethrow : bool) (fuel : nat) (p : program) (d : Z) (c
         end
     | SPanic v =>
         (* $panic(value): frame d+1;  $callDeferred(null, null, true): frame d+2 *)
-        match impl_cd goexit_rethrow fuel' p (d + 2) None None true (j_set_ps (v :: j_panicStack s) s) with
+        match impl_cd vr fuel' p (d + 2) None None true (j_set_ps (v :: j_panicStack s) s) with
         | None => None
         | Some (JThrow e, s2) => Some (JThrow e, s2)
         | Some (_, s2) => continue s2
         end
     | SReturn => Some (JReturn, s)
     | SGoexit =>
-        Some (JThrow XNull, j_set_exit (Some (if goexit_rethrow then length (j_deferStack s) else O)) s)
+        Some (JThrow XNull, j_set_exit (Some (if v_goexit_rethrow vr then length (j_deferStack s) else O)) s)
+    | SBlock => continue s
     end
   end end
 
 (* a compiled Go function called at JS depth d *)
-with impl_fun (goexit_rethrow : bool) (fuel : nat) (p : program) (d : Z) (cell : nat) (body : list stmt) (s : jstate)
+with impl_fun (vr : variant) (fuel : nat) (p : program) (d : Z) (cell : nat) (body : list stmt) (s : jstate)
   {struct fuel} : option (jout * jstate) :=
   match fuel with O => None | S fuel' =>
   if negb (has_defer body) then
-    match impl_exec goexit_rethrow fuel' p d cell None body s with
+    match impl_exec vr fuel' p d cell None body s with
     | None => None
     | Some (JThrow e, s1) => Some (JThrow e, s1)
     | Some (_, s1) => Some (JNext, s1)
@@ -382,11 +393,11 @@ with impl_fun (goexit_rethrow : bool) (fuel : nat) (p : program) (d : Z) (cell :
     let '(id, s0) := j_fresh s in
     (* the new array is the (empty) list of the fresh id *)
     let s0 := j_set_ds (id :: j_deferStack s0) s0 in
-    match impl_exec goexit_rethrow fuel' p d cell (Some id) body s0 with
+    match impl_exec vr fuel' p d cell (Some id) body s0 with
     | None => None
     | Some (out, s1) =>
         let err := match out with JThrow e => jsErr_of e | _ => None end in
-        match impl_cd goexit_rethrow fuel' p (d + 1) (Some id) err false s1 with
+        match impl_cd vr fuel' p (d + 1) (Some id) err false s1 with
         | None => None
         | Some (JThrow e, s2) => Some (JThrow e, s2)
         | Some (_, s2) => Some (JNext, s2)
@@ -395,7 +406,7 @@ with impl_fun (goexit_rethrow : bool) (fuel : nat) (p : program) (d : Z) (cell :
   end
 
 (* $callDeferred(deferred, jsErr, fromPanic), its frame at JS depth d *)
-with impl_cd (goexit_rethrow : bool) (fuel : nat) (p : program) (d : Z) (deferred : option nat) (jsErr : option pval) (fromPanic : bool) (s : jstate)
+with impl_cd (vr : variant) (fuel : nat) (p : program) (d : Z) (deferred : option nat) (jsErr : option pval) (fromPanic : bool) (s : jstate)
   {struct fuel} : option (jout * jstate) :=
   match fuel with O => None | S fuel' =>
   if negb fromPanic && match deferred with Some id => negb (mem_nat id (j_deferStack s)) | None => false end
@@ -403,11 +414,11 @@ with impl_cd (goexit_rethrow : bool) (fuel : nat) (p : program) (d : Z) (deferre
   else match jsErr with
   | Some _ =>
       (* try { $panic(new $jsErrorPtr(jsErr)) } catch (err) { newErr = err }  $callDeferred(deferred, newErr) *)
-      match impl_cd goexit_rethrow fuel' p (d + 2) None None true (j_set_ps (PJsErr :: j_panicStack s) s) with
+      match impl_cd vr fuel' p (d + 2) None None true (j_set_ps (PJsErr :: j_panicStack s) s) with
       | None => None
       | Some (out, s1) =>
           let newErr := match out with JThrow e => jsErr_of e | _ => None end in
-          impl_cd goexit_rethrow fuel' p (d + 1) deferred newErr false s1
+          impl_cd vr fuel' p (d + 1) deferred newErr false s1
       end
   | None =>
       let s1 := j_set_offset (j_offset s - 1) s in
@@ -418,7 +429,7 @@ with impl_cd (goexit_rethrow : bool) (fuel : nat) (p : program) (d : Z) (deferre
         | [] => (None, s1)
         | v :: ps => (Some v, j_set_psd (Some (get_stack_depth s1 (d + 1))) v (j_set_ps ps s1))
         end in
-      match impl_loop goexit_rethrow fuel' p d deferred fromPanic local s2 with
+      match impl_loop vr fuel' p d deferred fromPanic local s2 with
       | None => None
       | Some (res, s3) =>
           let after :=
@@ -426,7 +437,7 @@ with impl_cd (goexit_rethrow : bool) (fuel : nat) (p : program) (d : Z) (deferre
             | LRet => Some (JNext, s3)
             | LThrow e cur =>
                 if fromPanic then Some (JThrow e, s3)
-                else impl_cd goexit_rethrow fuel' p (d + 1) cur (jsErr_of e) false s3
+                else impl_cd vr fuel' p (d + 1) cur (jsErr_of e) false s3
             | LThrowTop e =>
                 (* fromPanic: rethrown; otherwise $callDeferred(undefined, e) rethrows at once
                    because indexOf(undefined) is -1 *)
@@ -441,7 +452,8 @@ with impl_cd (goexit_rethrow : bool) (fuel : nat) (p : program) (d : Z) (deferre
                 | None => s4
                 | Some v =>
                     let s4' := match j_psd s4 with
-                               | Some _ => j_set_ps (v :: j_panicStack s4) s4
+                               | Some _ => if v_pushback_asleep_only vr then s4
+                                           else j_set_ps (v :: j_panicStack s4) s4
                                | None => s4 end in
                     j_set_psd outerPSD outerPV s4'
                 end in
@@ -451,7 +463,7 @@ with impl_cd (goexit_rethrow : bool) (fuel : nat) (p : program) (d : Z) (deferre
   end end
 
 (* the while(true) loop inside the try block of $callDeferred *)
-with impl_loop (goexit_rethrow : bool) (fuel : nat) (p : program) (d : Z) (cur : option nat) (fromPanic : bool) (local : option pval) (s : jstate)
+with impl_loop (vr : variant) (fuel : nat) (p : program) (d : Z) (cur : option nat) (fromPanic : bool) (local : option pval) (s : jstate)
   {struct fuel} : option (lres * jstate) :=
   match fuel with O => None | S fuel' =>
   let top :=
@@ -468,7 +480,7 @@ with impl_loop (goexit_rethrow : bool) (fuel : nat) (p : program) (d : Z) (cur :
       | None =>
           let s1 := j_set_ds (tl (j_deferStack s)) s in
           match local with
-          | Some _ => impl_loop goexit_rethrow fuel' p d None fromPanic local s1
+          | Some _ => impl_loop vr fuel' p d None fromPanic local s1
           | None =>
               match j_exit s1 with
               | Some n =>
@@ -481,10 +493,10 @@ with impl_loop (goexit_rethrow : bool) (fuel : nat) (p : program) (d : Z) (cur :
       | Some (c, s1) =>
           let res :=
             match c with
-            | DClo b cell => impl_fun goexit_rethrow fuel' p (d + 1) cell b s1
+            | DClo b cell => impl_fun vr fuel' p (d + 1) cell b s1
             | DFun f arg =>
                 let '(c', s1') := j_fresh s1 in
-                impl_fun goexit_rethrow fuel' p (d + 1) c' (body_of p f) (j_setcell c' (arg, 0) s1')
+                impl_fun vr fuel' p (d + 1) c' (body_of p f) (j_setcell c' (arg, 0) s1')
             end in
           match res with
           | None => None
@@ -494,29 +506,37 @@ with impl_loop (goexit_rethrow : bool) (fuel : nat) (p : program) (d : Z) (cur :
               | Some _, None =>
                   (* error was recovered *)
                   if fromPanic then Some (LThrow XNull (Some id), s2) else Some (LRet, s2)
-              | _, _ => impl_loop goexit_rethrow fuel' p d (Some id) fromPanic local s2
+              | _, _ => impl_loop vr fuel' p d (Some id) fromPanic local s2
               end
           end
       end
   end end.
 
 (* $goroutine: try { fun() } catch (err) { if (!$goroutine.exit) throw err } *)
-Definition impl_final (out : jout) (s : jstate) : final :=
+Definition impl_final (vr : variant) (out : jout) (s : jstate) : final :=
   match out with
   | JThrow e =>
-      match j_exit s with
-      | Some _ => FNormal
-      | None => match e with XNull => FCrash | XFatal v => FFatal v end
+      match j_exit s, e with
+      | Some _, XNull => FNormal
+      | Some _, XFatal v => if v_exit_swallows_null_only vr then FFatal v else FNormal
+      | None, XNull => FCrash
+      | None, XFatal v => FFatal v
       end
   | _ => FNormal
   end.
 
-Definition impl_run (goexit_rethrow : bool) (fuel : nat) (p : program) : option (list event * final) :=
-  match impl_fun goexit_rethrow fuel p 0 0 wrapper j_init with
+Definition impl_run (vr : variant) (fuel : nat) (p : program) : option (list event * final) :=
+  match impl_fun vr fuel p 0 0 wrapper j_init with
   | None => None
-  | Some (out, s) => Some (rev (j_trace s), impl_final out s)
+  | Some (out, s) => Some (rev (j_trace s), impl_final vr out s)
   end.
 
+
+(* the three shapes of the tree seen so far *)
+Definition V_OLD : variant := {| v_goexit_rethrow := false; v_pushback_asleep_only := false; v_exit_swallows_null_only := false |}.
+Definition V_GOEXIT : variant := {| v_goexit_rethrow := true; v_pushback_asleep_only := false; v_exit_swallows_null_only := false |}.
+Definition V_REPAIRED : variant := {| v_goexit_rethrow := true; v_pushback_asleep_only := true; v_exit_swallows_null_only := false |}.
+Definition V_FULL : variant := {| v_goexit_rethrow := true; v_pushback_asleep_only := true; v_exit_swallows_null_only := true |}.
 
 Definition obs (r : option (list event * final)) : option (list event * final) :=
   match r with
